@@ -374,13 +374,14 @@ Definition update_fee (c : chan) (feerate : Z) : rres chan :=
   else if c_disconnected c then RErr "Peer sent update_fee when we needed a channel_reestablish"
   else ROk (set_fee c (c_feerate c) (Some (feerate, FS_RemoteAnnounced))).
 
-(** [free_holding_cell_htlcs]: [send_ok amt] stands for the outcome of the limit checks of the re-run
+(** [free_holding_cell_htlcs]: [send_ok tag] (keyed by the payment, not the amount: two queued adds of equal
+    amount may fare differently) stands for the outcome of the limit checks of the re-run
     [send_htlc] (an HTLC that no longer fits is failed backwards, i.e. dropped here). *)
 Fixpoint free_hc_updates (send_ok : Z -> bool) (c : chan) (l : list hc_upd) (n : Z) : chan * Z :=
   match l with
   | [] => (c, n)
   | HC_Add amt tag :: t =>
-    if send_ok amt then
+    if send_ok tag then
       match send_htlc c amt tag with
       | ROk (c', true) => free_hc_updates send_ok c' t (n + 1)
       | _ => free_hc_updates send_ok c t n
